@@ -39,6 +39,18 @@ def registry_functions(ctx, registry):
     return out
 
 
+def _registry_types(ctx, regs):
+    """[(Func, {types})] from registry_functions() output (keys folded)"""
+    out = {}
+    for key, fn in regs:
+        try:
+            t = ctx.folder.fold(key, ctx.module(BRINE))
+        except Unfoldable:
+            continue
+        out.setdefault(id(fn), (fn, set()))[1].add(t)
+    return list(out.values())
+
+
 # ---------------------------------------------------------------------------------- dump side
 class DumpPath:
     def __init__(self):
@@ -237,6 +249,19 @@ class DumpExec:
                 p.raw.append(("child", subst(c.args[0], env), st))
                 p.nodes.append(st)
                 return [(p, env)]
+            # the registered dumper of an exact type called directly on a value that is exactly of that type (a tuple display or
+            # tuple(...)): the same bytes as going through the type dispatch
+            if d and len(c.args) == 2 and A.dotted(c.args[1]) == prm_stream:
+                arg0 = subst(c.args[0], env)
+                exact = tuple if isinstance(arg0, ast.Tuple) or (isinstance(arg0, ast.Call) and A.call_name(arg0) == "tuple") else None
+                if exact is not None:
+                    regs = registry_functions(self.ctx, "_dump_registry")
+                    r_ = self.ctx.repo.resolve_name(self.mod, d)
+                    if r_ and r_[0] == "func" and any(fn is r_[1] and exact in ts for fn, ts in _registry_types(self.ctx, regs)):
+                        p = p.clone()
+                        p.raw.append(("child", arg0, st))
+                        p.nodes.append(st)
+                        return [(p, env)]
             # delegation to another dumper: inline it
             if d and len(c.args) == 2 and A.dotted(c.args[1]) == prm_stream:
                 r = self.ctx.repo.resolve_name(self.mod, d)
@@ -487,7 +512,10 @@ class LoadExec:
                             and isinstance(ge.generators[0].iter, ast.Call) \
                             and A.call_name(ge.generators[0].iter) == "range" and len(ge.generators[0].iter.args) == 1 \
                             and not ge.generators[0].ifs:
-                        return ("tuple_n", self.term(ge.generators[0].iter.args[0], env))
+                        cnt = self.term(ge.generators[0].iter.args[0], env)
+                        if cnt and cnt[0] == "const" and isinstance(cnt[1], int) and 0 <= cnt[1] <= 16:
+                            return ("tuple",) + tuple(("load", self.fresh()) for _ in range(cnt[1]))
+                        return ("tuple_n", cnt)
                     raise AnalysisError("unsupported generator in loader: %s" % A.src(e))
                 args = []
                 for a in e.args:
